@@ -1,0 +1,24 @@
+//go:build verif
+
+package builtins
+
+// Machine-checked contracts for the builtin functions (comment-only; compiled only with -tags verif).
+
+//@ props C13
+
+// every value of type Builtin computes builtinOut of itself and its arguments
+//@ functype Builtin(args)
+//@ ensures result1 == nil ==> result0 == builtinOut(self, args)
+
+// Get: lookup in the package-level map literal {"join": join, "exec": execute}
+//@ func Get
+//@ trusted reads the package-level map variable initialised by a map literal
+//@ ensures result1 ==> result0 != nil && result0 == builtinId(name) && (name == "join" || name == "exec")
+//@ ensures name == "join" || name == "exec" ==> result1
+
+//@ func join
+//@ ensures [C13,join-is-absolute-cleaned-join] result1 == nil ==> result0 == builtinOut(join, parts)
+
+//@ func execute
+//@ ensures [C13,exec-one-argument] len(command) != 1 ==> result1 != nil
+//@ ensures [C13,exec-is-trimmed-stdout] result1 == nil ==> result0 == builtinOut(execute, command)
